@@ -230,7 +230,7 @@ fn gen_heightfield(r: &mut Rng, lat: bool, neg: bool) -> Co {
 }
 
 pub fn gen(r: &mut Rng, thorough: bool, v: &mut Vec<(String, String)>) {
-    let n = if thorough { 3000 } else { 300 };
+    let n = if thorough { 2400 } else { 240 };
     for it in 0..n {
         let lat = it % 2 == 0;
         let m = d2::gen_iso(r, lat, 100.0);
